@@ -20,7 +20,7 @@ from mc.ref import geom
 ID = "C13"
 RULE = ("depth-first explicit-state search over ALL histories of depth <= 3 (quick) / <= 4 (thorough) of 18 operations "
         "add_frame_result(frame k in {0,1,2} x estimates {perfect, shifted, one missing + one extra} x critical filter {wide, "
-        "narrow}), and of depth <= 2 (quick) / <= 3 (thorough) of 30 operations (adds estimate lists {cars only, empty}) on a real manager over a generated 3-frame dataset, in two worlds (detection/base_link, tracking/map with a "
+        "narrow}), and of depth <= 2 (quick) / <= 3 (thorough) of 30 operations (adds estimate lists {cars only, empty} and an alternative ground-truth frame object with the same frame name); tracking world: every history [plain, extended, plain] on a real manager over a generated 3-frame dataset, in two worlds (detection/base_link, tracking/map with a "
         "moving ego); get_scene_result() is queried (twice) in every state. state = tuple of frame-result summaries (pairing, "
         "TP/FP/FN/TN uuids, critical GT, AP/APH, CLEAR scores); oracles: last result equals the same operation on a pristine "
         "manager (for tracking: after the same preceding operation), dataset and caller lists untouched, scene score = reference "
@@ -31,9 +31,11 @@ ASSUMPTIONS = [
     "pooled AP is compared with the exact-rational reference only when the pooled confidences of a label bucket are pairwise "
     "distinct (each operation salts its confidences; histories repeating an operation are exempt from the value clause)",
 ]
-SALT_KIND = {"perfect": 0, "shifted": 1, "missing": 2, "cars_only": 3, "none": 4}
+SALT_KIND = {"perfect": 0, "shifted": 1, "missing": 2, "cars_only": 3, "none": 4, "altframe": 5}
 KINDS = ["perfect", "shifted", "missing"]
-KINDS_X = ["cars_only", "none"]   # a label with ground truth but no estimate at all / no estimate at all
+# a label with ground truth but no estimate at all / no estimate at all / ANOTHER ground-truth frame object carrying the same frame name
+# (as an interpolated frame or a second dataset does) with one object less
+KINDS_X = ["cars_only", "none", "altframe"]
 CRITS = {"wide": dict(max_x_position_list=[50.0, 50.0], max_y_position_list=[50.0, 50.0]),
          "narrow": dict(max_x_position_list=[10.0, 10.0], max_y_position_list=[10.0, 10.0])}
 OPS = [(k, kind, c) for k in range(3) for kind in KINDS for c in ("wide", "narrow")]
@@ -68,6 +70,11 @@ def units(tier, seed):
                         u.append(dict(world=w, prefix=[a, b], depth=depth_x, nops=len(OPS), only_extended=True))
                 else:
                     u.append(dict(world=w, prefix=[a, b], depth=depth_x, nops=len(OPS)))  # histories touching the extended alphabet
+    # tracking: a frame without results for a label (or at all) between two ordinary frames
+    plain = [i for i, o in enumerate(OPS) if o[1] in ("perfect", "shifted") and o[2] == "wide"]
+    for a in plain:
+        for x in range(N18, len(OPS)):
+            u.append(dict(world="trk", prefix=[a, x], depth=3, nops=len(OPS), last_ops=plain))
     return u
 
 
@@ -124,9 +131,12 @@ class World:
                   o.semantic_score, o.pointcloud_num, str(o.frame_id)) for o in objs] for objs in self.pristine]
 
     def reset(self):
-        self.m.frame_results = []
-        for f, objs in zip(self.m.ground_truth_frames, self.pristine):
-            f.objects = list(objs)
+        """a pristine manager: a NEW manager instance on the same configuration (nothing a previous history left behind - frame
+        results, caches, modified frames - can survive), with the object snapshots taken again from its freshly loaded frames."""
+        with contextlib.redirect_stderr(io.StringIO()), contextlib.redirect_stdout(io.StringIO()):
+            self.m = PerceptionEvaluationManager(self.ec)
+        self.pristine = [list(f.objects) for f in self.m.ground_truth_frames]
+        self.deep = self.deep_snapshot()
 
     def dataset_ok(self):
         for f, objs in zip(self.m.ground_truth_frames, self.pristine):
@@ -141,7 +151,7 @@ class World:
         for j, o in enumerate(self.pristine[k]):
             if kind == "missing" and j == 1:
                 continue
-            if kind == "none" or (kind == "cars_only" and j == 2):
+            if kind == "none" or (kind == "cars_only" and j == 2) or (kind == "altframe" and j == 1):
                 continue
             e = copy.deepcopy(o)
             e.uuid = "e" + o.uuid
@@ -163,6 +173,9 @@ class World:
         """-> (summary, error string|None)"""
         k, kind, c = op
         f = self.m.ground_truth_frames[k]
+        if kind == "altframe":
+            from perception_eval.common.dataset import FrameGroundTruth
+            f = FrameGroundTruth(f.unix_time, f.frame_name, [o for j, o in enumerate(self.pristine[k]) if j != 1], transforms=[mt for _, mt in f.transforms.items()])
         E = self.estimates(op)
         E0 = list(E)
         snapE = [(e.uuid, tuple(e.state.position), e.semantic_score, e.semantic_label.label) for e in E]
@@ -217,6 +230,26 @@ def _scene_check(W, hist, acc, bad):
         b = tuple(tuple(round(x.ap, 9) for x in mp.aps) for mp in fr.metrics_score.maps)
         if a != b:
             bad("scene:one-frame", "one-frame scene AP %s != that frame's AP %s" % (a, b))
+    # tracking: the scene CLEAR equals the sum of the per-step CLEARs of consecutive frames (each step scored by the library's own
+    # two-frame CLEAR, whose accounting is C05's concern)
+    if W.tracking:
+        from perception_eval.evaluation.metrics.tracking.clear import CLEAR
+        from perception_eval.evaluation.matching.objects_filter import divide_objects
+        tl = W.ec.target_labels
+        per_frame = [divide_objects(fr.object_results, tl) for fr in m.frame_results]
+        for ts in s1.tracking_scores:
+            for li, lab in enumerate(tl):
+                frames_l = [[]] + [pf[lab] for pf in per_frame]
+                tp = fp = sw = 0.0
+                sc = 0.0
+                for i in range(1, len(frames_l)):
+                    c2 = CLEAR([list(frames_l[i - 1]), list(frames_l[i])], 1, [lab], ts.matching_mode, [ts.clears[li].matching_threshold_list[0]])
+                    tp, fp, sw, sc = tp + c2.tp, fp + c2.fp, sw + c2.id_switch, sc + c2.tp_matching_score
+                c = ts.clears[li]
+                acc.compared()
+                if (c.tp, c.fp, c.id_switch) != (tp, fp, sw) or abs(c.tp_matching_score - sc) > 1e-9:
+                    bad("scene:clear-not-sum-of-steps", "label %s mode %s: scene CLEAR tp=%s fp=%s id_switch=%s score=%.6f, sum over consecutive frame pairs tp=%s fp=%s id_switch=%s score=%.6f" % (
+                        lab.name, ts.matching_mode.value, c.tp, c.fp, c.id_switch, c.tp_matching_score, tp, fp, sw, sc))
     # reference pooling --------------------------------------------------------------------------
     labels = W.ec.target_labels
     names = [l.name for l in labels]
@@ -344,7 +377,10 @@ class _Fresh2(dict):
                 with open(path, "rb") as f:
                     self.rows[a] = pickle.load(f)
             else:
-                self.rows[a] = _compute_row(self.W, a)
+                # computed on a SEPARATE manager: the live one is in the middle of a history
+                if getattr(self, "ref_world", None) is None:
+                    self.ref_world = World(self.W.name)
+                self.rows[a] = _compute_row(self.ref_world, a)
         return self.rows[a][b]
 
 
@@ -360,10 +396,10 @@ def _prepare(W, wait=True):
         W.fresh2.wait = wait
 
 
-def _dfs(W, hist, depth, acc, nops=None, only_extended=False):
+def _dfs(W, hist, depth, acc, nops=None, only_extended=False, last_ops=None):
     if len(hist) >= depth:
         return
-    for i in range(nops or len(OPS)):
+    for i in (last_ops if last_ops is not None else range(nops or len(OPS))):
         if only_extended and len(hist) == depth - 1 and i < N18 and all(h < N18 for h in hist):
             continue  # pure 18-alphabet histories are covered by the full-depth units
         hist.append(i)
@@ -387,7 +423,7 @@ def run_unit(unit, acc):
         acc.note("reference-rows-prepared")
         acc.state(("prep", unit["row"]))
         return
-    _prepare(W)
+    _prepare(W, wait=not os.environ.get("VERIF_REPLAY"))
     W.reset()
     try:
         if not unit["prefix"]:
@@ -409,7 +445,7 @@ def run_unit(unit, acc):
             _step(W, hist, acc, True)
         else:
             W.do(OPS[b])
-        _dfs(W, hist, unit["depth"], acc, unit.get("nops"), unit.get("only_extended", False))
+        _dfs(W, hist, unit["depth"], acc, unit.get("nops"), unit.get("only_extended", False), unit.get("last_ops"))
     except Abandon:
         acc.note("subtree-abandoned-after-dataset-modification")
     finally:
